@@ -89,6 +89,8 @@ def run(ctx):
     rule_exit_persists(ctx, r2, ("tracked jobs",))
     rule_close_writes(ctx, r2, ("tracked jobs",))
     rule_tracked_dump(ctx, r2)
+    from .persist import rule_table_ownership
+    rule_table_ownership(ctx, r2, ("tracked jobs",))
 
     r3 = ctx.rule("R3", "local pool: the id list travels unchanged client -> wire -> scheduler -> task coroutine", min_instances=4)
     lo = idx.func("gwf.backends.local:LocalOps.submit_target")
